@@ -306,3 +306,12 @@ def workload(ctx, repo):
         if k % 997 == 0:
             ctx.sample(case)
         run_case(ctx, repo, case)
+        if k % 5 == 0:
+            # history: the same duration applied to the same instant written
+            # in another representation / offset
+            tw = gen.twin_of(rng, mode, p)
+            if tw is not None:
+                case = dict(case, p=tw)
+                ctx.case = case
+                ctx.ev("cases.twin")
+                run_case(ctx, repo, case)
